@@ -1,5 +1,5 @@
 \* C13 known-finding configuration: the transcription with ONE deviation of the code enabled (environment variable KF =
-\* verbStrlen | staleHeaderRead | zeroWrite | icmpYZ).  TLC is EXPECTED to report a violated invariant; the counterexample documents
+\* verbStrlen | staleHeaderRead | zeroWrite | icmpYZ | headChunked).  TLC is EXPECTED to report a violated invariant; the counterexample documents
 \* the finding.  Constants are scaled down so that the runaway header loop of staleHeaderRead stays short.
 SPECIFICATION Spec
 CONSTANTS
